@@ -1,5 +1,6 @@
 """Run loop, replay and minimisation for engine W."""
 import copy
+import gc
 import hashlib
 import json
 import sys
@@ -100,6 +101,8 @@ def execute(mode, cfg, events, collect=None):
 
 def run_one(mode, rng, run_index, want_sample=False):
     cfg = mode.draw(rng)
+    if cfg.get("shared"):
+        gc.collect()  # leftovers of earlier runs are finalised before this run's clock starts
     w = World(cfg)
     old_hook = sys.unraisablehook
     sys.unraisablehook = _installed_hook(w)
@@ -140,6 +143,10 @@ def run_one(mode, rng, run_index, want_sample=False):
         }
         if w.unraisable:
             res["probes"]["unraisable_in_del"] = len(w.unraisable)
+        if viol is None and hasattr(mode, "hist"):
+            h = mode.hist(w)
+            if h:
+                res["hist"] = h
         if want_sample:
             res["sample"] = {"config": {k: v for k, v in cfg.items() if k not in ("weights", "mult")},
                              "events": events[:12], "n_events": len(events)}
